@@ -62,12 +62,16 @@ class SemAdapter(SamplingAdapter):
 
     def setup(self, cfg: Any, bench: Bench) -> None:
         self.bench = bench
+        self.contended: dict[int, bool] = {}
         self.sem = prim("Semaphore", bool(cfg.get("adapter")), cfg["init"], max_value=cfg.get("max"),
                         fast_acquire=bool(cfg["fast"]))
 
     def fmt(self, t: int, op: list, pre: bool) -> str:
         self.sample(t, op)
         if op[0] == "acquire":
+            # for the history logs (sem_real_logs): will this call have to queue?  Public state only.
+            self.contended[len(self.bench.lines)] = not (
+                self.sem.value > 0 and self.sem.statistics().tasks_waiting == 0)
             return f"acquire {t} {int(pre)}"
         return f"{op[0]} {t}"
 
@@ -689,9 +693,40 @@ def make_bench(case: dict, eager: bool = False) -> Bench:
     return Bench(ad, case, eager=eager)
 
 
+def sem_real_logs(lines: list[list[str]], contended: dict[int, bool]) -> str:
+    """The three history lists of Props/C10fifo.lean derived from the REAL semaphore: an `acquire` that
+    suspended started waiting iff, when it was called, the public state said it could not go ahead
+    (`value == 0` or tasks already waiting); a waiter future was cancelled = the `fc` the bench saw on the
+    real task; a queued task was handed a permit iff its wake-up returns normally, or raises although its
+    future was never cancelled (a native cancellation that landed after the hand-over).  Wake-ups of
+    handed-over waiters run in hand-over order (the loop's ready queue is FIFO), so the list orders can
+    be compared with the model's, which logs at `release()` time."""
+    enq: list[int] = []
+    granted: list[int] = []
+    cancelled: list[int] = []
+    queued: dict[int, bool] = {}  # task -> its waiter future was cancelled
+    for i, (req, out) in enumerate(lines):
+        w = req.split()
+        if w[0] == "acquire" and out == "susp" and contended.get(i):
+            enq.append(int(w[1]))
+            queued[int(w[1])] = False
+        elif w[0] == "fc" and int(w[1]) in queued:
+            cancelled.append(int(w[1]))
+            queued[int(w[1])] = True
+        elif w[0] == "step" and out != "susp" and int(w[1]) in queued:
+            if not queued.pop(int(w[1])):
+                granted.append(int(w[1]))
+    fmt = lambda l: ",".join(map(str, l)) if l else "-"  # noqa: E731
+    return f"enq={fmt(enq)} granted={fmt(granted)} cancelled={fmt(cancelled)}"
+
+
 def run_cases(cases: list[dict], res: Result, eager_every: int = 0) -> None:
     benches = [make_bench(c, eager=bool(eager_every and i % eager_every == 0)).run()
                for i, c in enumerate(cases)]
+    for c, b in zip(cases, benches):
+        if c["kind"] == "sem" and not b.error:
+            b.lines.append(["log", sem_real_logs(b.lines, b.adapter.contended)])  # type: ignore[attr-defined]
+            res.stats["sem_history_logs_compared"] = res.stats.get("sem_history_logs_compared", 0) + 1
     replies: dict[int, list[str]] = {}
     for kind, model in MODEL.items():
         idx = [i for i, c in enumerate(cases) if c["kind"] == kind]
